@@ -148,6 +148,11 @@ def main_transitions(rep, f, c, sink):
         if l['ty'] == 'usize' and i > b.arg_count and len(b.defs.get(i, [])) >= 2:
             inits = [d for d in b.defs.get(i, []) if d[2] == 'assign' and r0.rvalue(d[3]['rv']) == C(0) and d[0] not in b.reach_from(heads)]
             cmp_ = any('switch' in blk['t'] and (lambda e: e[0] == 'bin' and e[1] in ('Ge', 'Lt') and e[2] == ('loc', i) and e[3] == ('len', SRC))(Resolver(b).operand(blk['t']['switch'])) for blk in b.blocks)
+            if not cmp_:
+                # ... or is the position of a checked access `src.get(offset)`
+                cmp_ = any((b.callee(t_) or '') == 'core::slice::<impl [T]>::get' and len(t_['args']) == 2 and (op_place(t_['args'][1]) or {}).get('l') == i or
+                           ((b.callee(t_) or '') == 'core::slice::<impl [T]>::get' and len(t_['args']) == 2 and Resolver(b).operand(t_['args'][1]) == ('loc', i))
+                           for _, t_ in b.calls())
             if inits and cmp_:
                 offl.append(i)
     if len(offl) != 1:
@@ -192,6 +197,8 @@ def main_transitions(rep, f, c, sink):
 
 def _extract_transitions(rep, f, c, fn, b, off, N, paths, sink, pre_mode=False):
     out = set()
+    _MEMS.clear()
+    _MEMS.update({k_: bytes.fromhex(v_['bytes']) for k_, v_ in f.mems.items() if v_.get('size') == 2})
     lc_all = {v_['name'] for v_ in (f.adts.get('DecoderLifeCycle') or {'variants': []})['variants']}
     for p in paths:
         st = [e for e in p.conds() if e[1][0] == 'variant' and e[1][1] == ('fld', ('deref', SELF), 'life_cycle')]
@@ -267,6 +274,12 @@ def _extract_transitions(rep, f, c, fn, b, off, N, paths, sink, pre_mode=False):
                     guards.append('src[0] not in {%s}' % ','.join('%X' % v for v in vals))
                 else:
                     guards.append('src[0]=%X' % e[2])
+            elif next_byte_test(ce, b, N) is not None and isinstance(e[2], bool):
+                kind_, val_ = next_byte_test(ce, b, N)
+                if kind_ == 'none':
+                    guards.append('end' if e[2] == val_ else '!end')
+                else:
+                    guards.append('%snext=%X' % ('' if e[2] else '!', val_))
             elif ce[0] == 'call' and (ce[1] or '').endswith('::ne') and strip_ref(ce[2][0]) == ('fld', ('deref', SELF), 'encoding'):
                 guards.append('%sencoding!=%s' % ('' if e[2] else '!', static_of(ce[2][1])))
             elif ce[0] == 'call' and (ce[1] or '').endswith('::eq') and strip_ref(ce[2][0]) == ('fld', ('deref', SELF), 'encoding'):
@@ -377,6 +390,43 @@ def norm_effects(t):
     return (s, g, tuple(sorted(e)), end)
 
 
+def next_byte_test(ce, b, N):
+    """tests of `src.get(offset).copied()`: is_none / is_some -> ('none', truth that means "at the end"); == Some(c) -> ('eq', c)"""
+    def is_next(x):
+        x = strip_ref(x)
+        while x[0] in ('deref', 'ref'):
+            x = strip_ref(x[1])
+        if x[0] == 'call' and (x[1] or '').endswith(('::copied', '::cloned')) and len(x[2]) == 1:
+            x = strip_ref(x[2][0])
+        return x[0] == 'call' and (x[1] or '') == 'core::slice::<impl [T]>::get' and len(x[2]) == 2 and strip_ref(x[2][0]) == SRC and N(x[2][1]) == 'o'
+    if ce[0] != 'call' or not ce[1]:
+        return None
+    if ce[1].endswith(('Option::<T>::is_none', 'Option::<T>::is_some')) and len(ce[2]) == 1 and is_next(ce[2][0]):
+        return ('none', ce[1].endswith('is_none'))
+    if ce[1].endswith('PartialEq>::eq') and len(ce[2]) == 2:
+        for x_, y_ in ((ce[2][0], ce[2][1]), (ce[2][1], ce[2][0])):
+            if not is_next(x_):
+                continue
+            y0 = strip_ref(y_)
+            while y0[0] in ('deref', 'ref'):
+                y0 = strip_ref(y0[1])
+            if y0[0] == 'agg' and variant_name(y0) == 'Some' and y0[2] and y0[2][0][0] == 'c':
+                return ('eq', y0[2][0][1])
+            if y0[0] == 'cptr' and y0[2] == 0:
+                import json as _json
+                tgt = _json.loads(y0[1])
+                if 'mem' in tgt and str(tgt['mem']) in b.facts.mems if hasattr(b, 'facts') else False:
+                    pass
+                raw = _MEMS.get(str(tgt.get('mem')))
+                # Option<u8> has no niche: (tag, value), tag 1 = Some
+                if raw is not None and len(raw) == 2 and raw[0] == 1:
+                    return ('eq', raw[1])
+    return None
+
+
+_MEMS = {}
+
+
 def parse_guard(g):
     """guard string -> (atom, kind, values): kind 'is' (bool atom, values = truth) / 'in' / 'notin' (byte atoms)"""
     import re as _re
@@ -390,6 +440,10 @@ def parse_guard(g):
     m = _re.match(r'src\[(o|0)\] not in \{([0-9A-F,]*)\}$', body_)
     if m and not neg:
         return ('src[%s]' % m.group(1), 'notin', frozenset(int(x, 16) for x in m.group(2).split(',') if x))
+    m = _re.match(r'next=([0-9A-F]+)$', body_)
+    if m:
+        # the byte at the offset exists and is this one: a conjunction of the two atoms
+        return (('end', 'src[o]'), 'notnext' if neg else 'next', frozenset([int(m.group(1), 16)]))
     m = _re.match(r'encoding!=(\w+)$', body_)
     if m:
         return ('encoding!=' + m.group(1), 'is', not neg)
@@ -401,6 +455,9 @@ def parse_guard(g):
 
 def holds(lit, val):
     atom, kind, v = lit
+    if kind in ('next', 'notnext'):
+        is_ = (val['end'] is False) and (val['src[o]'] in v)
+        return is_ if kind == 'next' else not is_
     x = val[atom]
     if kind == 'is':
         return x == v
@@ -418,7 +475,11 @@ def decision_table(ref_s, got_s):
     dom = {}
     for lits, _ in R_ + G_:
         for atom, kind, v in lits:
-            if kind == 'is':
+            if kind in ('next', 'notnext'):
+                dom.setdefault('end', set()).update([True, False])
+                dom.setdefault('src[o]', set()).update(v)
+                dom['src[o]'].add('other')
+            elif kind == 'is':
                 dom.setdefault(atom, set()).update([True, False])
             else:
                 dom.setdefault(atom, set()).update(v)
